@@ -14,28 +14,53 @@
     `C05_client`); the harness validates it by executing the model on every run.
   * `fresh ≠ ""` — the id drawn from `uuid4` is not the empty string (an empty id would make the request a
     notification).
-  * `name ≠ ""` — the server refuses an empty method name before looking it up.
+  * `name ≠ ""` — the server refuses an empty method name before looking it up, WHATEVER is registered
+    (`C01_empty_name_refused`: −32600 and no invocation, also for a function registered under `""`; confirmed on
+    the real code).  The empty string is therefore the one name under which a registered callable cannot be
+    reached; the hypothesis cannot be dropped.
   * (none about keyword names: since fix 04aca15 `_Method.__call__(*args, **kwargs)` and
     `MultiCallMethod.__call__(*args, **kwargs)` take their receiver positionally, so a keyword called
     `self` is an ordinary keyword — `methodParams` / `jobParams` do not look at the keys; see the example
-    with a `"self"` key at the end of the file.)
+    with a `"self"` key.)
   * `pool ≠ full` for calls (a full notification pool only matters for notifications), `pool = absent` for
     notifications (C01 is about the inline invocation; the pooled path is C04/C09).
   * `custom = none`: the server uses its own `_dispatch` (registry look-up), which is what "callable
     registered on a server" means.
 
+  EQUALITY OF VALUES AND KEY ORDER.  `PyVal.dict` is an ordered association list and `=` on `PyVal` is structural,
+  so "returns `normalise v`" / "invoked with `dict (normaliseKVs kwargs)`" / `Backend.roundtrip`
+  (`parse (render v) = some (normalise v)`) all include the ORDER of dictionary entries.  That is a fact about
+  order-preserving backends (CPython's `json` with insertion-ordered dicts, the backend the library selects; the
+  witness `BackendInstance.godel`), and it is stronger than the property: JSON objects are unordered and Python's
+  `==` on dicts ignores order, so "returns exactly its return value up to JSON normalisation" does not speak of
+  key order.  The harness therefore compares values, call arguments and documents order-insensitively (monitor:
+  Python equality with exact scalar types; projections: `pyval.enc(canon=True)` sorts entries), and reports how
+  often the real backend kept the order (`backend_key_order_changed` in the evidence: 0 for the code as it
+  stands).  A backend that re-orders keys (e.g. `sort_keys=True`) is outside the hypotheses of these theorems but
+  does not violate the property; the check does not raise an alarm for it.
+
   Map: `C01_request` / `C01_single` / `C01_kwargs` / `C01_no_args` / `C01_dotted` / `C01_falsy` / `C01_raises` /
   `C01_notify` (class translation off), `C01_single_jsonclass` / `C01_notify_jsonclass` (translation on, any
   combination of flags), `C01_batch` (every call job returns), `C01_batch_mixed` (ANY mixture of returning,
   raising, unknown and non-binding jobs, calls and notifications, translation on or off: per-position outcome,
-  invocations, History), `C01_batch_jsonclass` (= the formerly unproved `C01_batch_jsonclass_full_statement`),
-  `C01_batch_position`, `C01_batch_all_notifications`.  Nothing is left as an unproved `def`.
+  invocations, History), `C01_batch_jsonclass`, `C01_batch_position`, `C01_batch_all_notifications`;
+  names: `C01_dotted`, `C01_notify_dotted`, `C01_extendJobName`, `C01_mkJob`, `C01_dunder_test`,
+  `C01_methodParams_shape`, `C01_jobParams_shape`, `C01_empty_name_refused`;
+  kept helper objects (state between uses): `C01_method_object_immutable`, `C01_method_cells_never_change`,
+  `C01_job_object_extended`, `C01_kept_namespace`, `C01_call_via_objects`, `C01_addJob`, `C01_addJobs`,
+  `C01_multicall_call`, `C01_multicall_reuse`, `C01_multicall_keeps_on_failure`;
+  transports and server classes: `C01_over_wire` (= `C01_over_wire_full_statement`, composing C17 and C19);
+  satisfiability of the Backend laws: `C01_backend_exists`.
+  The companion theorems of the extracted facts (`C01_gen_*`) are in JRV/Properties/C01Gen.lean; this file does
+  not import JRV.Generated.
 -/
 import JRV.Lemmas.EndToEnd
 import JRV.Properties.C05
 import JRV.Properties.C06
 import JRV.Properties.C14
-import JRV.Generated
+import JRV.Properties.C17
+import JRV.Properties.C19
+import JRV.Lemmas.BackendInstance
 
 set_option linter.unusedSimpArgs false
 set_option linter.unusedVariables false
@@ -1687,11 +1712,8 @@ theorem C01_batch_jsonclass_partial (B : Backend) (hg : Gate20) (c : Proxy) (m :
 
 /- ---------- tie to the source ---------- -/
 
-/-- `_Method.__call__` raises ProtocolError for both styles at once, sends `args` when there are
-    positional arguments, `kwargs` when there are only keywords, and an empty container when there are
-    neither (`methodParams`; which empty container is immaterial: `C01_no_args`). -/
-theorem C01_gen_methodSendsArgsElseKwargs : Generated.methodSendsArgsElseKwargs = some methodCallShape := by decide
-
+/-- `_Method.__call__`: ProtocolError for both styles at once, `args` when there are positional arguments, `kwargs`
+    when there are only keywords (an empty dict when there is neither). -/
 theorem C01_methodParams_shape (args : List PyVal) (kwargs : List (PyVal × PyVal)) :
     (args ≠ [] → kwargs ≠ [] → ∃ e, methodParams args kwargs = .error e ∧ e.cls = "ProtocolError") ∧
     (args ≠ [] → kwargs = [] → methodParams args kwargs = .ok (.tuple args)) ∧
@@ -1704,26 +1726,6 @@ theorem C01_methodParams_shape (args : List PyVal) (kwargs : List (PyVal × PyVa
   · intro ha
     subst ha
     simp [methodParams, truthy, pure, Except.pure]
-
-/-- `ServerProxy._request` returns `response["result"]` after `check_for_errors(response)` (`Client.proxyResult`). -/
-theorem C01_gen_requestReturnsResult : Generated.requestReturnsResult = some requestResultShape := by decide
-
-/-- History: the request text is recorded before the transport call, the transport's result (a text)
-    right after it and before `loads` (`runRequest`). -/
-theorem C01_gen_historyOrder : Generated.historyOrder = some runRequestEvents := by decide
-
-/-- MultiCall: `"[ {0} ]"`, `","`, jobs in list order (`batchBody`, `renderJobs`). -/
-theorem C01_gen_multicallFormat :
-    Generated.multicallFormat = some (batchPrefix ++ "{0}" ++ batchSuffix, batchSep, true) := by decide
-
-/-- MultiCall jobs are rendered with version 2.0 (`jobRequest`). -/
-theorem C01_gen_multicallVersion : Generated.multicallVersion = some EndToEnd.multicallVersion := by decide
-
-/-- `MultiCallIterator[i]` is `results[i]`, iteration walks `results` forward (`iterGet`, `iterAll`). -/
-theorem C01_gen_iteratorPositional : Generated.iteratorPositional = some (true, true) := by decide
-
-/-- The attribute names of `ServerProxy` that never reach `__getattr__` (`pathOk` excludes them). -/
-theorem C01_gen_proxyOwnAttrs : Generated.proxyOwnAttrs = some proxyOwnAttrs := by decide
 
 /- ---------- non-vacuity: concrete inputs meeting the hypotheses ---------- -/
 
@@ -1810,5 +1812,638 @@ example : exJobs.flatMap jobEffects =
 -- `C01_single_jsonclass`: a transparent translator
 example : Transparent { useJsonclass := true } (fun v => pure v.normalise) pure :=
   { conv_ok := fun _ _ _ _ => rfl, unconv_ok := fun _ _ _ => rfl }
+
+/- ---------- names built by attribute access on `_notify` and on a MultiCall ---------- -/
+
+/-- Paths the property quantifies over for `proxy._notify.<path>`. -/
+def notifyPathOk : List String → Bool
+  | [] => false
+  | first :: rest => !isDunder first && !notifyOwnAttrs.contains first && rest.all segOk
+
+/-- `proxy._notify.a.b.c` is the notification of the method named `"a.b.c"`. -/
+theorem C01_notify_dotted (path : List String) (h : notifyPathOk path = true) :
+    notifyAttr path = .ok (dottedName path) := by
+  cases path with
+  | nil => simp [notifyPathOk] at h
+  | cons a rest =>
+    simp only [notifyPathOk, Bool.and_eq_true, Bool.not_eq_true'] at h
+    have h2 : a ∉ notifyOwnAttrs := by simpa using h.1.2
+    simp [notifyAttr, h.1.1, h2, extendName_ok a rest h.2, dottedName]
+
+def jobSegOk (seg : String) : Bool := !isDunder seg && !multicallMethodOwnAttrs.contains seg
+
+/-- Paths the property quantifies over for `mc.<path>` (`notify = false`) and `mc._notify.<path>`. -/
+def jobPathOk (notify : Bool) : List String → Bool
+  | [] => false
+  | first :: rest =>
+    !isDunder first && !(if notify then multicallNotifyOwnAttrs else multicallOwnAttrs).contains first &&
+      rest.all jobSegOk
+
+/-- `MultiCallMethod.__getattr__` folded over the segments: the dotted name. -/
+theorem C01_extendJobName (acc : String) (rest : List String) (h : rest.all jobSegOk = true) :
+    extendJobName acc rest = .ok (rest.foldl (fun acc seg => acc ++ "." ++ seg) acc) := by
+  induction rest generalizing acc with
+  | nil => rfl
+  | cons s rest ih =>
+    simp only [List.all_cons, Bool.and_eq_true, jobSegOk, Bool.not_eq_true'] at h
+    have h2 : s ∉ multicallMethodOwnAttrs := by simpa using h.1.2
+    simp [extendJobName, h.1.1, h2, ih _ h.2]
+
+/-- `mc.a.b.c(*args, **kwargs)` / `mc._notify.a.b.c(…)` is the job named `"a.b.c"` with the parameters
+    `MultiCallMethod.__call__` keeps (`C01_jobParams_shape`). -/
+theorem C01_mkJob (notify : Bool) (path : List String) (args : List PyVal) (kwargs : List (PyVal × PyVal))
+    (h : jobPathOk notify path = true) :
+    mkJob notify path args kwargs =
+      (jobParams args kwargs).map (fun params => { method := dottedName path, params := params, notify := notify }) := by
+  cases path with
+  | nil => simp [jobPathOk] at h
+  | cons a rest =>
+    simp only [jobPathOk, Bool.and_eq_true, Bool.not_eq_true'] at h
+    have h2 : a ∉ (if notify then multicallNotifyOwnAttrs else multicallOwnAttrs) := by simpa using h.1.2
+    simp only [mkJob, h.1.1, Bool.false_or, List.contains_eq_mem, h2, decide_false, Bool.false_eq_true, ↓reduceIte,
+      C01_extendJobName a rest h.2, dottedName, bind, Except.bind]
+    cases jobParams args kwargs <;> rfl
+
+/-- `MultiCallMethod.__call__`: ProtocolError for both styles at once, `kwargs` when there are keywords, `args`
+    otherwise (an empty tuple when there is neither). -/
+theorem C01_jobParams_shape (args : List PyVal) (kwargs : List (PyVal × PyVal)) :
+    (args ≠ [] → kwargs ≠ [] → ∃ e, jobParams args kwargs = .error e ∧ e.cls = "ProtocolError") ∧
+    (kwargs ≠ [] → args = [] → jobParams args kwargs = .ok (.dict kwargs)) ∧
+    (kwargs = [] → jobParams args kwargs = .ok (.tuple args)) := by
+  refine ⟨?_, ?_, ?_⟩
+  · intro ha hk
+    cases args <;> cases kwargs <;> simp_all [jobParams, truthy, raise]
+  · intro hk ha
+    subst ha
+    cases kwargs <;> simp_all [jobParams, truthy, pure, Except.pure]
+  · intro hk
+    subst hk
+    simp [jobParams, truthy, pure, Except.pure]
+
+/- ---------- kept helper objects: what they remember ---------- -/
+
+/-- `_Method` objects are immutable: attribute access on one allocates a NEW `_Method` whose name is the
+    receiver's name, a dot and the segment; the receiver, every other `_Method`, every `MultiCallMethod` and
+    every job list are left as they were. -/
+theorem C01_method_object_immutable (hp hp' : Heap) (i : Nat) (seg : String) (r : Ref)
+    (h : getAttr hp (.method i) seg = .ok (r, hp')) :
+    ∃ mo, hp.methods[i]? = some mo ∧ r = .method hp.methods.length ∧
+      hp'.methods = hp.methods ++ [{ notify := mo.notify, name := mo.name ++ "." ++ seg }] ∧
+      hp'.methods[i]? = some mo ∧ hp'.jobs = hp.jobs ∧ hp'.lists = hp.lists := by
+  simp only [getAttr] at h
+  cases hm : hp.methods[i]? with
+  | none => simp [hm, raise] at h
+  | some mo =>
+    simp only [hm] at h
+    split at h
+    · simp [raise] at h
+    · simp only [pure, Except.pure, Heap.newMethod, Except.ok.injEq, Prod.mk.injEq] at h
+      obtain ⟨rfl, rfl⟩ := h
+      refine ⟨mo, rfl, rfl, rfl, ?_, rfl, rfl⟩
+      have hi : i < hp.methods.length := by
+        rcases List.getElem?_eq_some_iff.mp hm with ⟨hi, _⟩; exact hi
+      simp [List.getElem?_append_left hi, hm]
+
+/-- No operation on any helper object ever changes an existing `_Method`: attribute access (on the proxy, a
+    `_Notify`, a `_Method`, a `MultiCall`, a `MultiCallNotify`, a `MultiCallMethod`) only appends cells. -/
+theorem C01_method_cells_never_change (hp hp' : Heap) (r r' : Ref) (name : String)
+    (h : getAttr hp r name = .ok (r', hp')) :
+    ∃ extra, hp'.methods = hp.methods ++ extra := by
+  cases r with
+  | proxy =>
+    simp only [getAttr] at h
+    split at h
+    · simp only [pure, Except.pure, Except.ok.injEq, Prod.mk.injEq] at h; exact ⟨[], by simp [← h.2]⟩
+    · split at h
+      · simp [raise] at h
+      · split at h
+        · simp [raise] at h
+        · simp only [pure, Except.pure, Heap.newMethod, Except.ok.injEq, Prod.mk.injEq] at h
+          exact ⟨_, by rw [← h.2]⟩
+  | notifier =>
+    simp only [getAttr] at h
+    split at h
+    · simp [raise] at h
+    · simp only [pure, Except.pure, Heap.newMethod, Except.ok.injEq, Prod.mk.injEq] at h
+      exact ⟨_, by rw [← h.2]⟩
+  | method i =>
+    obtain ⟨mo, _, _, hm, _⟩ := C01_method_object_immutable hp hp' i name r' h
+    exact ⟨_, hm⟩
+  | multicall i =>
+    simp only [getAttr] at h
+    split at h
+    · split at h
+      · simp only [pure, Except.pure, Except.ok.injEq, Prod.mk.injEq] at h; exact ⟨[], by simp [← h.2]⟩
+      · simp [raise] at h
+    · split at h
+      · simp [raise] at h
+      · simp only [Heap.newJob] at h
+        split at h
+        · simp [raise] at h
+        · simp only [pure, Except.pure, Except.ok.injEq, Prod.mk.injEq] at h; exact ⟨[], by simp [← h.2]⟩
+  | mcNotify i =>
+    simp only [getAttr] at h
+    split at h
+    · simp [raise] at h
+    · simp only [Heap.newJob] at h
+      split at h
+      · simp [raise] at h
+      · simp only [pure, Except.pure, Except.ok.injEq, Prod.mk.injEq] at h; exact ⟨[], by simp [← h.2]⟩
+  | job k =>
+    simp only [getAttr] at h
+    split at h
+    · simp [raise] at h
+    · split at h
+      · simp [raise] at h
+      · simp only [pure, Except.pure, Except.ok.injEq, Prod.mk.injEq] at h; exact ⟨[], by simp [← h.2]⟩
+
+/-- In contrast, a `MultiCallMethod` is extended IN PLACE: attribute access on it overwrites its `method` with
+    the dotted name and returns the very same object (what the code does; a program that keeps `j = mc.a` and
+    then evaluates `j.b` has changed `j`). -/
+theorem C01_job_object_extended (hp hp' : Heap) (k : Nat) (seg : String) (r : Ref)
+    (h : getAttr hp (.job k) seg = .ok (r, hp')) :
+    ∃ j, hp.jobs[k]? = some j ∧ r = .job k ∧
+      hp'.jobs = hp.jobs.set k { j with method := j.method ++ "." ++ seg } ∧
+      hp'.methods = hp.methods ∧ hp'.lists = hp.lists := by
+  simp only [getAttr] at h
+  cases hj : hp.jobs[k]? with
+  | none => simp [hj, raise] at h
+  | some j =>
+    simp only [hj] at h
+    split at h
+    · simp [raise] at h
+    · simp only [pure, Except.pure, Except.ok.injEq, Prod.mk.injEq] at h
+      obtain ⟨rfl, rfl⟩ := h
+      exact ⟨j, rfl, rfl, rfl, rfl, rfl⟩
+
+/-- A kept namespace object: with `ns = proxy.<…>` held in a variable, `ns.a(…)` followed by `ns.b(…)` sends the
+    methods `"<ns>.a"` and then `"<ns>.b"` — the second name does not contain the first segment.  (`sendVia` on
+    a `_Method` with these fields is `request` / `requestNotify` with that method name: the `C01_request` …
+    `C01_notify` theorems apply to each call.) -/
+theorem C01_kept_namespace (K : Codec) (c : Proxy) (p : Peer) (h1 h2 : History) (f1 f2 : String)
+    (hp : Heap) (i : Nat) (mo : MethodObj) (a b : String)
+    (args1 args2 : List PyVal) (kw1 kw2 : List (PyVal × PyVal))
+    (hns : hp.methods[i]? = some mo) (ha : segOk a = true) (hb : segOk b = true) :
+    ∃ hp1 hp2,
+      getAttr hp (.method i) a = .ok (.method hp.methods.length, hp1) ∧
+      callMethod K c p h1 f1 hp1 hp.methods.length args1 kw1 =
+        sendVia K c p h1 f1 { notify := mo.notify, name := mo.name ++ "." ++ a } args1 kw1 ∧
+      getAttr hp1 (.method i) b = .ok (.method hp1.methods.length, hp2) ∧
+      callMethod K c p h2 f2 hp2 hp1.methods.length args2 kw2 =
+        sendVia K c p h2 f2 { notify := mo.notify, name := mo.name ++ "." ++ b } args2 kw2 := by
+  have step : ∀ (hp : Heap) (seg : String), hp.methods[i]? = some mo → segOk seg = true →
+      getAttr hp (.method i) seg = .ok (.method hp.methods.length,
+        { hp with methods := hp.methods ++ [{ notify := mo.notify, name := mo.name ++ "." ++ seg }] }) := by
+    intro hp seg hm hs
+    simp only [segOk, Bool.and_eq_true, Bool.not_eq_true'] at hs
+    have h2 : seg ∉ methodOwnAttrs := by simpa using hs.2
+    simp [getAttr, hm, hs.1, h2, Heap.newMethod, pure, Except.pure]
+  have hi : i < hp.methods.length := by
+    rcases List.getElem?_eq_some_iff.mp hns with ⟨hi, _⟩; exact hi
+  refine ⟨_, _, step hp a hns ha, ?_, step _ b (by simp [List.getElem?_append_left hi, hns]) hb, ?_⟩
+  · simp [callMethod]
+  · simp [callMethod]
+
+/-- The one-expression forms are the object operations: for a path of the property's domain,
+    `proxy.<path>(*args, **kwargs)` (`EndToEnd.call`) is attribute access from the proxy, one `_Method` per
+    segment, followed by the call of the last one — and `proxy._notify.<path>(…)` likewise from a `_Notify`. -/
+theorem C01_call_via_objects (K : Codec) (c : Proxy) (p : Peer) (h : History) (fresh : String) (hp : Heap)
+    (path : List String) (args : List PyVal) (kwargs : List (PyVal × PyVal)) :
+    (pathOk path = true → ∃ i hp', getAttrs hp .proxy path = .ok (.method i, hp') ∧
+      hp'.methods[i]? = some { notify := false, name := dottedName path } ∧
+      callMethod K c p h fresh hp' i args kwargs = EndToEnd.call K c p h fresh path args kwargs) ∧
+    (notifyPathOk path = true → ∃ i hp', getAttrs hp .notifier path = .ok (.method i, hp') ∧
+      hp'.methods[i]? = some { notify := true, name := dottedName path } ∧
+      callMethod K c p h fresh hp' i args kwargs = EndToEnd.notify K c p h fresh path args kwargs) := by
+  have ext : ∀ (rest : List String) (hp : Heap) (i : Nat) (mo : MethodObj), hp.methods[i]? = some mo →
+      rest.all segOk = true →
+      ∃ i' hp', getAttrs hp (.method i) rest = .ok (.method i', hp') ∧
+        hp'.methods[i']? = some { notify := mo.notify, name := rest.foldl (fun acc seg => acc ++ "." ++ seg) mo.name } := by
+    intro rest
+    induction rest with
+    | nil => intro hp i mo hm _; exact ⟨i, hp, rfl, by simpa using hm⟩
+    | cons s rest ih =>
+      intro hp i mo hm hall
+      simp only [List.all_cons, Bool.and_eq_true] at hall
+      have hs := hall.1
+      simp only [segOk, Bool.and_eq_true, Bool.not_eq_true'] at hs
+      have h2 : s ∉ methodOwnAttrs := by simpa using hs.2
+      have hg : getAttr hp (.method i) s = .ok (.method hp.methods.length,
+          { hp with methods := hp.methods ++ [{ notify := mo.notify, name := mo.name ++ "." ++ s }] }) := by
+        simp [getAttr, hm, hs.1, h2, Heap.newMethod, pure, Except.pure]
+      obtain ⟨i', hp', hg', hm'⟩ := ih { hp with methods := hp.methods ++ [{ notify := mo.notify, name := mo.name ++ "." ++ s }] }
+        hp.methods.length { notify := mo.notify, name := mo.name ++ "." ++ s } (by simp) hall.2
+      exact ⟨i', hp', by simp only [getAttrs, hg, hg'], by simpa using hm'⟩
+  constructor
+  · intro hpath
+    cases path with
+    | nil => simp [pathOk] at hpath
+    | cons a rest =>
+      have hd := (C01_dotted (a :: rest) hpath).1
+      simp only [pathOk, Bool.and_eq_true, Bool.not_eq_true'] at hpath
+      have h2 : a ∉ proxyOwnAttrs := by simpa using hpath.1.1
+      have hna : (a == "_notify") = false := by
+        rw [beq_eq_false_iff_ne]; rintro rfl; exact h2 (by decide)
+      have hg : getAttr hp .proxy a = .ok (.method hp.methods.length,
+          { hp with methods := hp.methods ++ [{ notify := false, name := a }] }) := by
+        simp [getAttr, hna, h2, hpath.1.2, Heap.newMethod, pure, Except.pure]
+      obtain ⟨i', hp', hg', hm'⟩ := ext rest { hp with methods := hp.methods ++ [{ notify := false, name := a }] }
+        hp.methods.length { notify := false, name := a } (by simp) hpath.2
+      refine ⟨i', hp', by simp only [getAttrs, hg, hg'], by simpa [dottedName] using hm', ?_⟩
+      have hm'' : hp'.methods[i']? = some { notify := false, name := dottedName (a :: rest) } := by
+        simpa [dottedName] using hm'
+      simp only [callMethod, hm'', sendVia, EndToEnd.call, hd]
+      cases methodParams args kwargs <;> simp
+  · intro hpath
+    cases path with
+    | nil => simp [notifyPathOk] at hpath
+    | cons a rest =>
+      have hd := C01_notify_dotted (a :: rest) hpath
+      simp only [notifyPathOk, Bool.and_eq_true, Bool.not_eq_true'] at hpath
+      have h2 : a ∉ notifyOwnAttrs := by simpa using hpath.1.2
+      have hg : getAttr hp .notifier a = .ok (.method hp.methods.length,
+          { hp with methods := hp.methods ++ [{ notify := true, name := a }] }) := by
+        simp [getAttr, h2, hpath.1.1, Heap.newMethod, pure, Except.pure]
+      obtain ⟨i', hp', hg', hm'⟩ := ext rest { hp with methods := hp.methods ++ [{ notify := true, name := a }] }
+        hp.methods.length { notify := true, name := a } (by simp) hpath.2
+      have hm'' : hp'.methods[i']? = some { notify := true, name := dottedName (a :: rest) } := by
+        simpa [dottedName] using hm'
+      refine ⟨i', hp', by simp only [getAttrs, hg, hg'], hm'', ?_⟩
+      simp only [callMethod, hm'', sendVia, EndToEnd.notify, hd]
+      cases methodParams args kwargs <;> simp
+
+/- ---------- a kept MultiCall ---------- -/
+
+private theorem mapM_jobs_lt {jobs : List Job} : ∀ {l : List Nat} {js : List Job},
+    l.mapM (fun k => jobs[k]?) = some js → ∀ k ∈ l, k < jobs.length := by
+  intro l
+  induction l with
+  | nil => intro js _ k hk; simp at hk
+  | cons a l ih =>
+    intro js h k hk
+    simp only [List.mapM_cons, Option.bind_eq_bind, Option.bind_eq_some_iff] at h
+    obtain ⟨y, hy, ys, hys, _⟩ := h
+    rcases List.mem_cons.mp hk with rfl | hk
+    · rcases List.getElem?_eq_some_iff.mp hy with ⟨hlt, _⟩; exact hlt
+    · exact ih hys k hk
+
+private theorem mapM_jobs_congr {jobs jobs' : List Job} : ∀ {l : List Nat},
+    (∀ k ∈ l, jobs'[k]? = jobs[k]?) → l.mapM (fun k => jobs'[k]?) = l.mapM (fun k => jobs[k]?) := by
+  intro l
+  induction l with
+  | nil => intro _; rfl
+  | cons a l ih =>
+    intro h
+    simp only [List.mapM_cons, h a (by simp), ih (fun k hk => h k (by simp [hk]))]
+
+private theorem mapM_snoc {jobs : List Job} {l : List Nat} {js : List Job} {n : Nat} {j : Job}
+    (h : l.mapM (fun k => jobs[k]?) = some js) (hn : jobs[n]? = some j) :
+    (l ++ [n]).mapM (fun k => jobs[k]?) = some (js ++ [j]) := by
+  induction l generalizing js with
+  | nil =>
+    simp only [List.mapM_nil, Option.pure_def, Option.some.injEq] at h
+    subst h
+    simp [List.mapM_cons, hn]
+  | cons a l ih =>
+    simp only [List.mapM_cons, Option.bind_eq_bind, Option.bind_eq_some_iff] at h
+    obtain ⟨y, hy, ys, hys, hjs⟩ := h
+    simp only [Option.pure_def, Option.some.injEq] at hjs
+    subst hjs
+    simp [List.mapM_cons, hy, ih hys]
+
+private theorem set_snoc {α : Type} (xs : List α) (y z : α) : (xs ++ [y]).set xs.length z = xs ++ [z] := by
+  induction xs with
+  | nil => rfl
+  | cons x xs ih => simp [ih]
+
+/-- The heap while one job is being built on the `i`-th MultiCall: the job list is the old one plus the new cell,
+    the new cell is the last job cell, nothing else has moved. -/
+private structure Building (hp hp' : Heap) (i : Nat) (l : List Nat) (j : Job) : Prop where
+  lists : hp'.lists = hp.lists.set i (l ++ [hp.jobs.length])
+  jobs : hp'.jobs = hp.jobs ++ [j]
+  methods : hp'.methods = hp.methods
+
+private theorem building_jobsOf {hp hp' : Heap} {i : Nat} {l : List Nat} {j : Job} {js : List Job}
+    (hl : hp.lists[i]? = some l) (hjs : l.mapM (fun k => hp.jobs[k]?) = some js) (b : Building hp hp' i l j) :
+    hp'.jobsOf i = some (js ++ [j]) := by
+  have hi : i < hp.lists.length := by
+    rcases List.getElem?_eq_some_iff.mp hl with ⟨hi, _⟩; exact hi
+  have hl' : hp'.lists[i]? = some (l ++ [hp.jobs.length]) := by
+    rw [b.lists]; simp [hi]
+  simp only [Heap.jobsOf, hl', b.jobs]
+  apply mapM_snoc
+  · rw [mapM_jobs_congr]
+    · exact hjs
+    · intro k hk
+      exact List.getElem?_append_left (mapM_jobs_lt hjs k hk)
+  · simp
+
+private theorem building_extend {hp hp' : Heap} {i : Nat} {l : List Nat} {j : Job} (b : Building hp hp' i l j) :
+    ∀ (rest : List String), rest.all jobSegOk = true →
+    ∃ hp'', getAttrs hp' (.job hp.jobs.length) rest = .ok (.job hp.jobs.length, hp'') ∧
+      Building hp hp'' i l { j with method := rest.foldl (fun acc seg => acc ++ "." ++ seg) j.method } := by
+  intro rest
+  induction rest generalizing hp' j with
+  | nil => intro _; exact ⟨hp', rfl, b⟩
+  | cons s rest ih =>
+    intro hall
+    simp only [List.all_cons, Bool.and_eq_true] at hall
+    have hs := hall.1
+    simp only [jobSegOk, Bool.and_eq_true, Bool.not_eq_true'] at hs
+    have h2 : s ∉ multicallMethodOwnAttrs := by simpa using hs.2
+    have hcell : hp'.jobs[hp.jobs.length]? = some j := by rw [b.jobs]; simp
+    have hg : getAttr hp' (.job hp.jobs.length) s = .ok (.job hp.jobs.length,
+        { hp' with jobs := hp'.jobs.set hp.jobs.length { j with method := j.method ++ "." ++ s } }) := by
+      simp [getAttr, hcell, hs.1, h2, pure, Except.pure]
+    have b' : Building hp { hp' with jobs := hp'.jobs.set hp.jobs.length { j with method := j.method ++ "." ++ s } } i l
+        { j with method := j.method ++ "." ++ s } :=
+      { lists := b.lists, jobs := by simp only [b.jobs, set_snoc], methods := b.methods }
+    obtain ⟨hp'', hg', b''⟩ := ih b' hall.2
+    exact ⟨hp'', by simp only [getAttrs, hg, hg'], by simpa using b''⟩
+
+/-- `mc.<path>(*args, **kwargs)` / `mc._notify.<path>(…)` on a kept `MultiCall`, executed as the object operations
+    it consists of (attribute access registers a `MultiCallMethod` at once, further accesses extend it in place,
+    the call stores the parameters): the object's job list grows by exactly the job `mkJob` describes, at its
+    end; `_Method` objects are not touched. -/
+theorem C01_addJob (hp : Heap) (i : Nat) (js : List Job) (notify : Bool) (path : List String)
+    (args : List PyVal) (kwargs : List (PyVal × PyVal)) (job : Job)
+    (hjs : hp.jobsOf i = some js) (hpath : jobPathOk notify path = true)
+    (hjob : mkJob notify path args kwargs = .ok job) :
+    ∃ hp', addJob hp i notify path args kwargs = .ok hp' ∧ hp'.jobsOf i = some (js ++ [job]) ∧
+      hp'.methods = hp.methods := by
+  rw [C01_mkJob notify path args kwargs hpath] at hjob
+  cases hparams : jobParams args kwargs with
+  | error e => simp [hparams, Except.map] at hjob
+  | ok params =>
+    simp only [hparams, Except.map, Except.ok.injEq] at hjob
+    subst hjob
+    simp only [Heap.jobsOf] at hjs
+    cases hl : hp.lists[i]? with
+    | none => simp [hl] at hjs
+    | some l =>
+      simp only [hl] at hjs
+      have hi : i < hp.lists.length := by
+        rcases List.getElem?_eq_some_iff.mp hl with ⟨hi, _⟩; exact hi
+      cases path with
+      | nil => simp [jobPathOk] at hpath
+      | cons a rest =>
+        simp only [jobPathOk, Bool.and_eq_true, Bool.not_eq_true'] at hpath
+        obtain ⟨⟨hda, hown⟩, hrest⟩ := hpath
+        -- the first access registers the job
+        have hnew : ∀ r0, (r0 = Ref.multicall i ∧ notify = false) ∨ (r0 = Ref.mcNotify i ∧ notify = true) →
+            getAttr hp r0 a = .ok (.job hp.jobs.length,
+              { hp with jobs := hp.jobs ++ [{ method := a, params := .list [], notify := notify }],
+                        lists := hp.lists.set i (l ++ [hp.jobs.length]) }) := by
+          intro r0 hr0
+          rcases hr0 with ⟨rfl, rfl⟩ | ⟨rfl, rfl⟩
+          · have h2 : a ∉ multicallOwnAttrs := by simpa using hown
+            have hna : (a == "_notify") = false := by
+              rw [beq_eq_false_iff_ne]; rintro rfl; exact h2 (by decide)
+            simp [getAttr, hna, hda, h2, Heap.newJob, hl, pure, Except.pure]
+          · have h2 : a ∉ multicallNotifyOwnAttrs := by simpa using hown
+            simp [getAttr, hda, h2, Heap.newJob, hl, pure, Except.pure]
+        have b0 : Building hp { hp with jobs := hp.jobs ++ [{ method := a, params := .list [], notify := notify }],
+                                        lists := hp.lists.set i (l ++ [hp.jobs.length]) } i l
+            { method := a, params := .list [], notify := notify } :=
+          { lists := rfl, jobs := rfl, methods := rfl }
+        obtain ⟨hp2, hext, b2⟩ := building_extend b0 rest hrest
+        have hcell : hp2.jobs[hp.jobs.length]? =
+            some { method := rest.foldl (fun acc seg => acc ++ "." ++ seg) a, params := .list [], notify := notify } := by
+          rw [b2.jobs]; simp
+        obtain ⟨jfin, hjfin⟩ : ∃ x : Job, x = { method := dottedName (a :: rest), params := params, notify := notify } := ⟨_, rfl⟩
+        have b3 : Building hp { hp2 with jobs := hp2.jobs.set hp.jobs.length jfin } i l jfin :=
+          { lists := b2.lists, jobs := by simp only [b2.jobs, set_snoc], methods := b2.methods }
+        refine ⟨_, ?_, by rw [← hjfin]; exact building_jobsOf hl hjs b3, b3.methods⟩
+        have hjfin' : jfin = { method := rest.foldl (fun acc seg => acc ++ "." ++ seg) a, params := params, notify := notify } := by
+          rw [hjfin]; rfl
+        cases notify with
+        | false =>
+          simp only [addJob, Bool.false_eq_true, ↓reduceIte, pure, Except.pure, getAttrs, hnew (.multicall i) (Or.inl ⟨rfl, rfl⟩),
+            hext, callJob, hcell, hparams, bind, Except.bind, hjfin']
+        | true =>
+          have hn : getAttr hp (.multicall i) "_notify" = .ok (.mcNotify i, hp) := by
+            simp [getAttr, hi, pure, Except.pure]
+          simp only [addJob, ↓reduceIte, hn, getAttrs, hnew (.mcNotify i) (Or.inr ⟨rfl, rfl⟩),
+            hext, callJob, hcell, hparams, bind, Except.bind, pure, Except.pure, hjfin']
+
+/-- The job a description stands for. -/
+def jobOfCall (x : JobCall) : PyM Job := mkJob x.1 x.2.1 x.2.2.1 x.2.2.2
+
+/-- Several jobs added one after the other: the list grows by exactly these jobs, in order. -/
+theorem C01_addJobs (i : Nat) : ∀ (calls : List JobCall) (hp : Heap) (js added : List Job),
+    hp.jobsOf i = some js → (∀ x ∈ calls, jobPathOk x.1 x.2.1 = true) → calls.mapM jobOfCall = .ok added →
+    ∃ hp', addJobs hp i calls = .ok hp' ∧ hp'.jobsOf i = some (js ++ added) ∧ hp'.methods = hp.methods := by
+  intro calls
+  induction calls with
+  | nil =>
+    intro hp js added hjs _ hm
+    simp only [List.mapM_nil, pure, Except.pure, Except.ok.injEq] at hm
+    subst hm
+    exact ⟨hp, rfl, by simpa using hjs, rfl⟩
+  | cons x rest ih =>
+    intro hp js added hjs hok hm
+    obtain ⟨notify, path, args, kwargs⟩ := x
+    simp only [List.mapM_cons, bind, Except.bind] at hm
+    cases hj : jobOfCall (notify, path, args, kwargs) with
+    | error e => simp [hj] at hm
+    | ok job =>
+      simp only [hj] at hm
+      cases hr : rest.mapM jobOfCall with
+      | error e => simp [hr] at hm
+      | ok added' =>
+        simp only [hr, pure, Except.pure, Except.ok.injEq] at hm
+        subst hm
+        obtain ⟨hp1, h1, hjs1, hm1⟩ := C01_addJob hp i js notify path args kwargs job hjs (hok (notify, path, args, kwargs) (by simp)) hj
+        obtain ⟨hp2, h2, hjs2, hm2⟩ := ih hp1 (js ++ [job]) added' hjs1 (fun y hy => hok y (by simp [hy])) hr
+        exact ⟨hp2, by simp only [addJobs, h1, h2], by simpa using hjs2, by rw [hm2, hm1]⟩
+
+/-- On a kept `MultiCall`, `mc()` is the batch of the jobs the object holds at that moment. -/
+theorem C01_multicall_call (K : Codec) (c : Proxy) (m : McConfig) (p : Peer) (h : History) (fresh : Nat → String)
+    (hp : Heap) (i : Nat) (js : List Job) (hjs : hp.jobsOf i = some js) :
+    (callMulticall K c m p h fresh hp i).1 = multicall K c m p h fresh js := by
+  simp [callMulticall, hjs]
+
+/-- REUSE of one `MultiCall` object.  The object holds the jobs `js` (any mixture of fates, as in
+    `C01_batch_mixed`, whose hypotheses are taken over); it is called; then the statements `calls` add the jobs
+    `added`; it is called again (any History, any ids).  Then
+    * the first call is the batch of `js` — so `C01_batch_mixed` describes its results, invocations and History;
+    * it leaves the object's job list EMPTY (`del self._job_list[:]` is reached: the exchange returned);
+    * the second call is the batch of `added` only: nothing of the first batch is sent — hence invoked — again. -/
+theorem C01_multicall_reuse (B : Backend) (hg : Gate20) (c : Proxy) (m : McConfig) (p : Peer) (h h2 : History)
+    (fresh fresh2 : Nat → String) (hp : Heap) (i : Nat) (js : List (Job × Fate))
+    (calls : List JobCall) (added : List Job)
+    (Tc : Transparent c.cfg c.conv c.unconv) (Tm : Transparent m.cfg m.conv pure)
+    (Ts : Transparent p.srv.cfg p.srv.conv p.unconv)
+    (hsv : p.srv.cfg.version = 10 ∨ p.srv.cfg.version = 20)
+    (hcustom : p.srv.custom = Option.none) (hpool : p.srv.pool = .absent)
+    (hfresh : ∀ i, fresh i ≠ "") (hne : js ≠ [])
+    (hall : ∀ x ∈ js, JobSpec p.srv.reg x)
+    (hfree : (c.cfg.useJsonclass || m.cfg.useJsonclass || p.srv.cfg.useJsonclass) = true → ∀ x ∈ js, JobFree x)
+    (hjs : hp.jobsOf i = some (js.map (·.1)))
+    (hcalls : ∀ x ∈ calls, jobPathOk x.1 x.2.1 = true) (hadded : calls.mapM jobOfCall = .ok added) :
+    (callMulticall B.codec c m p h fresh hp i).1 = multicall B.codec c m p h fresh (js.map (·.1)) ∧
+    (callMulticall B.codec c m p h fresh hp i).2.jobsOf i = some [] ∧
+    ∃ hp2, addJobs (callMulticall B.codec c m p h fresh hp i).2 i calls = .ok hp2 ∧
+      hp2.jobsOf i = some added ∧
+      (callMulticall B.codec c m p h2 fresh2 hp2 i).1 = multicall B.codec c m p h2 fresh2 added := by
+  obtain ⟨texts, rep, rs, hrender, _, _, hval, _⟩ :=
+    C01_batch_mixed B hg c m p h fresh js Tc Tm Ts hsv hcustom hpool hfresh hne hall hfree
+  -- `del self._job_list[:]` is reached
+  have hjl : ¬ (js.map (·.1)).length < 1 := by
+    cases js with
+    | nil => exact absurd rfl hne
+    | cons _ _ => simp
+  have hclears : multicallClears B.codec c m p h fresh (js.map (·.1)) = true := by
+    simp only [multicall, hjl, ↓reduceIte, hrender] at hval
+    simp only [multicallClears, hjl, ↓reduceIte, hrender]
+    cases hr : (runRequest B.codec c p h (batchBody texts)).value with
+    | ok v => rfl
+    | error e => simp [hr, bind, Except.bind] at hval
+  have hi : i < hp.lists.length := by
+    simp only [Heap.jobsOf] at hjs
+    cases hl : hp.lists[i]? with
+    | none => simp [hl] at hjs
+    | some l => rcases List.getElem?_eq_some_iff.mp hl with ⟨hi, _⟩; exact hi
+  have h2nd : (callMulticall B.codec c m p h fresh hp i).2 = { hp with lists := hp.lists.set i [] } := by
+    simp [callMulticall, hjs, hclears]
+  have hempty : (callMulticall B.codec c m p h fresh hp i).2.jobsOf i = some [] := by
+    rw [h2nd]; simp [Heap.jobsOf, hi]
+  refine ⟨C01_multicall_call _ c m p h fresh hp i _ hjs, hempty, ?_⟩
+  obtain ⟨hp2, hadd, hjs2, _⟩ := C01_addJobs i calls _ [] added hempty hcalls hadded
+  exact ⟨hp2, hadd, by simpa using hjs2, C01_multicall_call _ c m p h2 fresh2 hp2 i added (by simpa using hjs2)⟩
+
+/-- When `del self._job_list[:]` is not reached (a `job.request()` raised, or `_run_request` did), the object keeps
+    its jobs: the next call sends them again, together with what was added. -/
+theorem C01_multicall_keeps_on_failure (K : Codec) (c : Proxy) (m : McConfig) (p : Peer) (h : History)
+    (fresh : Nat → String) (hp : Heap) (i : Nat) (js : List Job) (hjs : hp.jobsOf i = some js)
+    (hfail : multicallClears K c m p h fresh js = false) :
+    (callMulticall K c m p h fresh hp i).2 = hp := by
+  simp [callMulticall, hjs, hfail]
+
+/- ---------- the empty method name ---------- -/
+
+/-- Why every theorem above asks `name ≠ ""`: the server refuses a request whose method is the empty string
+    before it looks anything up (`if not method or …` in `validate_request`) — whatever is registered, even a
+    function registered under `""` (`register_function(f, "")` is accepted): the answer is the −32600 fault and
+    NOTHING is invoked.  (Checked on the real code: `getattr(proxy, "")(1)` raises
+    `ProtocolError((-32600, 'Invalid request parameters or method.'))`; the empty string is the one method name a
+    registered callable cannot be reached under.) -/
+theorem C01_empty_name_refused (s : Server) (ver : Nat) (fresh : String) (p : PyVal)
+    (hp : p.isTuple = true ∨ p.isDict = true ∨ p.isList = true) :
+    ∃ f, entryNF s (normalise (.dict (reqKVs ver (.str fresh) "" p))) = (.ok (some (faultDump s.cfg f)), []) ∧
+      f.code = .int codeInvalid := by
+  have sh := reqKVs_shape ver (.str fresh) (by simp [wfJson, isJson, distinctKeys]) "" p
+  obtain ⟨hm, hid, _, _⟩ := parsed_lookups sh hp
+  have hidk : hasKeyStr "id" (normaliseKVs (reqKVs ver (.str fresh) "" p)) = true := by simp [hasKeyStr, hid]
+  cases hv : validateNF (.dict (normaliseKVs (reqKVs ver (.str fresh) "" p))) with
+  | fault f =>
+    exact ⟨f, by simp [normalise, entryNF, hv], (validateNF_fault hv).1⟩
+  | valid kvs m q =>
+    exfalso
+    simp only [validateNF, hidk, Bool.true_eq_false, and_false, ↓reduceIte,
+      lookupStr_withParams "method" (by decide), hm, Option.getD_some, checkNF] at hv
+    simp at hv
+
+/- ---------- over the wire: TCP / Unix-socket transports and the HTTP servers ---------- -/
+
+/-- The loop-back theorems above are about `runRequest`, where the server is handed the client's text and the
+    client the server's.  This is the statement that the same holds when the texts travel as bytes over HTTP, for
+    every way the network may cut them up, and that the transport hands each call the reply to its own request:
+    * C19 (`C19_healthy_stays`): on a connection with nothing unread a healthy exchange returns the result
+      carrying the call's OWN token and leaves such a connection — so in a fault-free session call `n` gets reply `n`;
+    * C17 (`C17_reassembly_server`, `C17_reassembly_client`): bytes = UTF-8 of the text in both directions, and
+      the reassembled text does not depend on the read schedule / the chunking;
+    hence the exchange over the wire IS the loop-back exchange: same value, same History, same invocations.
+    Every composed function (`request`, `requestNotify`, `multicall`, and the object forms) reaches the server
+    through `runRequest` only, so `C01_request` … `C01_batch_mixed`, `C01_multicall_reuse` hold over TCP and Unix
+    sockets, for `SimpleJSONRPCServer` and `PooledJSONRPCServer` alike (both run `do_POST` → `_marshaled_dispatch`;
+    the pooled server runs it on a worker thread: C12).
+    Not modelled (CPython, not this repository): http.client / http.server header parsing and keep-alive
+    (the schedule `w` and the behaviour script `bs` stand for them), gzip. -/
+def C01_over_wire_full_statement : Prop :=
+  ∀ (K : Codec) (c : Proxy) (p : Peer) (h : History) (request : String) (w : WireSchedule)
+    (lib : Transport.Lib) (cache : Transport.Cache) (tok : Nat) (bs : List Transport.Beh),
+    w.complete request → w.faithful →
+    Transport.Cache.good cache = true → bs.all Transport.Beh.healthy = true →
+    (Transport.call lib cache tok bs).1 = .result tok ∧
+    Transport.Cache.good (Transport.call lib cache tok bs).2 = true ∧
+    runRequestWire K c p h w request = runRequest K c p h request
+
+private theorem clientClose_faithful (reply : String) (chunks : List Wire.Bytes)
+    (h : chunks.flatten = Wire.toBytes reply) : Wire.clientClose chunks = .text reply := by
+  by_cases hne : chunks = []
+  · subst hne
+    have h1 : Wire.clientClose [[]] = .text reply := C17_reassembly_client reply [[]] (by simp) (by simpa using h)
+    have h2 : Wire.clientClose [[]] = .text "" := by decide +kernel
+    rw [h1] at h2
+    rw [C17_reassembly_client_empty, h2]
+  · exact C17_reassembly_client reply chunks hne h
+
+theorem C01_over_wire : C01_over_wire_full_statement := by
+  intro K c p h request w lib cache tok bs hcomplete hfaithful hgood hhealthy
+  obtain ⟨hres, hgood'⟩ := C19_healthy_stays lib cache tok bs hgood hhealthy
+  refine ⟨hres, hgood', ?_⟩
+  have hbody := C17_reassembly_server w.maxChunk request w.rest w.reads hcomplete
+  simp only [runRequestWire, hbody, runRequest]
+  rcases hs : serve K p request with ⟨r, eff⟩
+  cases r with
+  | error e => rfl
+  | ok reply => simp only [clientClose_faithful reply _ (hfaithful _)]
+
+/- ---------- which names the client refuses ---------- -/
+
+/-- The test `ServerProxy.__getattr__` applies to a name (read from the source: `C01_gen_proxyGetattrRefuses`
+    in JRV.Properties.C01Gen says the extracted test IS `dunderTest`) is the predicate `isDunder` the model and
+    the domain predicates `pathOk` / `notifyPathOk` / `jobPathOk` use: a name is refused iff it starts AND ends
+    with two underscores.  In particular names that merely start with an underscore are proxied. -/
+theorem C01_dunder_test (name : String) :
+    evalNameTest dunderTest.2.1 dunderTest.2.2 name = isDunder name := by
+  have h1 : "__".toList = ['_', '_'] := rfl
+  have h2 : "__".length = 2 := by decide
+  simp [evalNameTest, dunderTest, evalNameAtom, isDunder, h1, h2]
+
+-- `_x`, `a._b`, `_w_`, `__x`, `x__` are in the domain; `__x__`, `__` and `___` are dunder names
+example : pathOk ["_x"] = true ∧ pathOk ["a", "_b"] = true ∧ pathOk ["_w_"] = true ∧ pathOk ["__x"] = true ∧
+    pathOk ["x__", "_"] = true ∧ pathOk ["__x__"] = false ∧ pathOk ["__"] = false ∧ pathOk ["___"] = false := by
+  decide +kernel
+example : notifyPathOk ["ns", "_add"] = true ∧ notifyPathOk ["_request"] = false ∧
+    jobPathOk false ["_x", "b"] = true ∧ jobPathOk false ["_job_list"] = false ∧ jobPathOk true ["_x"] = true ∧
+    jobPathOk false ["a", "method"] = false := by decide +kernel
+-- a heap as `C01_multicall_reuse` / `C01_addJob` assume it: the first MultiCall holds two jobs, a second one none
+example : ({ jobs := [{ method := "a", params := .tuple [.int 1], notify := false },
+                      { method := "ns.b", params := .dict [], notify := true }],
+             lists := [[0, 1], []] } : Heap).jobsOf 0 =
+    some [{ method := "a", params := .tuple [.int 1], notify := false }, { method := "ns.b", params := .dict [], notify := true }] := by
+  decide +kernel
+example : jobOfCall (true, ["ns", "b"], [], []) = .ok { method := "ns.b", params := .tuple [], notify := true } := by
+  decide +kernel
+-- `C01_kept_namespace`: a `_Method` cell named "ns" and two admissible segments
+example : ({ methods := [{ notify := false, name := "ns" }] } : Heap).methods[0]? = some { notify := false, name := "ns" } ∧
+    segOk "a" = true ∧ segOk "_b" = true := by decide +kernel
+-- `C01_over_wire`: one read of the whole body and the reply delivered in one piece, or byte by byte
+example : WireSchedule.faithful { reads := [], chunks := fun b => [b] } ∧
+    WireSchedule.faithful { reads := [], chunks := fun b => List.map (fun x => [x]) b } := by
+  constructor
+  · intro b; simp
+  · intro b
+    show (List.map (fun x => [x]) b).flatten = b
+    induction b with
+    | nil => rfl
+    | cons x xs ih => simpa using ih
+example : WireSchedule.complete { reads := [1, 5, 2], chunks := fun b => [b] } "é!" := by
+  unfold WireSchedule.complete; decide +kernel
+
+/- ---------- the hypotheses about the text layer are satisfiable ---------- -/
+
+/-- Every theorem of this file is quantified over every `Backend`, i.e. over every renderer/parser pair that
+    satisfies the two laws `roundtrip` and `batch`.  Such pairs exist: JRV.Lemmas.BackendInstance constructs one
+    and proves both law fields for ALL JSON-able values (it is a Gödel-numbering codec, order-preserving on
+    dictionaries; it is a witness, not the backend the library runs with — CPython's `json` is tested against
+    the laws on every run by the harness). -/
+theorem C01_backend_exists : Nonempty Backend := ⟨BackendInstance.godel⟩
+
+/-- … so, for instance, `C01_request` read at that backend is a statement without any assumption on the text layer. -/
+example := C01_request BackendInstance.godel
+example := C01_batch_mixed BackendInstance.godel
 
 end JRV.Props
